@@ -504,6 +504,22 @@ def r9_stateless_parameters_not_narrowed(ctx, rid="C12.R9"):
              forbidden=[r"float32", r"float16", r"\bhalf\b", r"\bsingle\b", r"dtype=(np\.)?int", r"\.astype\(", r"\.round\(", r"np\.(round|around)\(", r"torch\."], construct="lists to arrays")
 
 
+def r10_load_hands_over_every_parameter(ctx):
+    """`BaseModel.load` gives the model the parameters of the file as they are: a filter on their value (`if v`) leaves out the legitimately
+    empty or zero ones (`deltas_mean == []` of a one-feature shared-speed model, a mean equal to 0.0), and the model cannot be reloaded."""
+    from ..astq import Canon
+    import re as _re
+    ctx.rule("C12.R10", "BaseModel.load hands every parameter of the file to load_parameters (no filtering on their values)", 1)
+    f = ctx.ix.func(BASE, "BaseModel.load", "C12.R10")
+    ctx.analysed(f)
+    L = Canon(f.node).lines(False, True)
+    text = "; ".join(ln for ln in L if "load_parameters(" in ln or "ModelSettings(" in ln or ".parameters" in ln)
+    ok = _re.fullmatch(r"(%\d+) = ModelSettings\(\$1\); (%\d+)\.load_parameters\(\1\.parameters\)", text) is not None \
+        or _re.fullmatch(r"(%\d+) = ModelSettings\(\$1\); model_factory\(\1\.name, \*\*\1\.hyperparameters\)\.load_parameters\(\1\.parameters\)", text) is not None
+    ctx.form("C12.R10", f, f.node, text, {text} if ok else set(), ["ModelSettings($1)", ".load_parameters(", ".parameters"], "load_parameters(reader.parameters)",
+             "the model is no longer given the parameters read from the file", forbidden=[r"\bfor\b[^{}]*\bif\b", r"\.pop\(", r"filter\(", r"is not None"], construct="parameters handed over whole")
+
+
 def rules(ctx):
     r7_trajectories_from_the_current_state(ctx)
     r6_files_read_afresh(ctx)
@@ -517,6 +533,7 @@ def rules(ctx):
     r5_rank(ctx)
     r8_feature_names_stored_as_given(ctx)
     r9_stateless_parameters_not_narrowed(ctx)
+    r10_load_hands_over_every_parameter(ctx)
     ctx.trust("json round trip of Python lists / numbers; tensor.tolist(); tensor.view")
     ctx.note("the two `assert (cond, msg)` statements at the end of StatefulModel.load_parameters assert a non-empty tuple (always true): the comparison of provided derived values is dead code (not part of the statement)")
 
